@@ -37,6 +37,32 @@ def proj_slash(i, m):
     return i, m
 
 
+# ---- disp domain: impl = (seq fresh conc ledger), model = same shape; one observation per request:
+#      (panic status headers body ok log recovered)
+def _pick(obs_lists, fields):
+    return [[[o[f] for f in fields] for o in l] for l in obs_lists]
+
+
+def proj_disp_c06(i, m):
+    # the ordered event log of every request (sequential, alone, concurrent)
+    return _pick(i[:3], [5]), _pick(m[:3], [5])
+
+
+def proj_disp_c07(i, m):
+    # Content-Encoding header, decoded body, decodes-completely flag
+    ce = lambda l: [[[h[1] for h in o[2] if h[0] == b'Content-Encoding'], o[3], o[4]] for o in l]
+    return [ce(l) for l in i[:3]], [ce(l) for l in m[:3]]
+
+
+def proj_disp_c10(i, m):
+    # escaped panic, status, decoded body, recover-handler calls, provider ledger
+    return [_pick(i[:3], [0, 1, 3, 4, 6]), i[3]], [_pick(m[:3], [0, 1, 3, 4, 6]), m[3]]
+
+
+def proj_disp_all(i, m):
+    return i, m
+
+
 TB_ROUTING = ['regexp.MatchString / full-segment match are oracles tabulated per case with Go\'s regexp package',
               'RouterJSR311: compiled template expressions are modelled segment-wise (DESIGN 3.3), valid for regex '
               'variables that cannot match "/" or the empty string and have no capture groups',
@@ -175,3 +201,67 @@ PROPS = {
                     'against the real filter, and the property predicates evaluated on the implementation outputs.',
     ),
 }
+
+RULE_DISP = ('configurations (route table of literal/variable templates with a service on "/", 0-3 container, 0-2 service and '
+             '0-2 route filters as behaviour scripts: headers, status, writes, attributes, pass / stop / pass a NEW request '
+             'wrapper, panics at 0/30/100%; route functions; container and per-route encoding switch; recovery on/off; recover '
+             'script; sync.Pool or bounded-cache provider with capacity 0/1/2/8) and histories of 1-16 requests (entry point '
+             'Dispatch or ServeHTTP, Accept-Encoding variants, pre-set Content-Encoding), each history run sequentially on one '
+             'container, request by request on fresh containers, and (25%) concurrently from 2-8 goroutines; distinct = distinct '
+             'case text; non-trivial = some script ran (class not "empty")')
+TB_DISP = ['compress/gzip and compress/zlib: the harness decodes every body with the real packages; the model treats the codec '
+           'as an abstract stream (chunks written, closed)',
+           'Go panic/defer/recover modelled as Done/Panicked with the defers of dispatch written out',
+           'filters / route functions / recover handler are behaviour scripts (pass control on at most once)',
+           'net/http ServeMux: every table has a service on "/" so the mux hands every request to dispatch (the mux is C11\'s subject)']
+PROPS.update({
+    'C06': dict(
+        domains=[dict(name='disp', quick=6000, thorough=150000)],
+        verdicts=['c06_*'],
+        project={'disp': proj_disp_c06},
+        prop_files=['props/C06.v'],
+        trivial_classes=('empty',),
+        rule=RULE_DISP, trusted_base=TB_DISP,
+        assumptions=['a filter calls ProcessFilter at most once'],
+        explanation='Theorems Props.C06_chain / C06_request on the Coq model of filter.go + Container.dispatch/ServeHTTP; the '
+                    'ordered event log of every request compared with the model (sequential, on a fresh container, concurrent) '
+                    'and with chain_events of the configuration.',
+    ),
+    'C07': dict(
+        domains=[dict(name='disp', quick=6000, thorough=150000)],
+        verdicts=['c07_*'],
+        project={'disp': proj_disp_c07},
+        prop_files=['props/C07.v'],
+        trivial_classes=('empty',),
+        rule=RULE_DISP, trusted_base=TB_DISP,
+        assumptions=['codec contract: dec (enc b) = b, a stream closed once is one complete frame (compress/gzip, compress/zlib)'],
+        explanation='Theorems Props.C07_discipline / C07_wanted / C07_no_bypass and the refutation '
+                    'C07_refuted_servehttp_route_off (known finding K-C07-1); Content-Encoding, decoded body and completeness '
+                    'of every response compared with the model; encoding_ok / encoding_labelled evaluated on the implementation.',
+    ),
+    'C10': dict(
+        domains=[dict(name='disp', quick=6000, thorough=150000)],
+        verdicts=['c10_*'],
+        project={'disp': proj_disp_c10},
+        prop_files=['props/C10.v'],
+        trivial_classes=('empty', 'plain'),
+        rule=RULE_DISP + '; for C10 non-trivial = a panic was raised (recovered or escaped) or a response was encoded',
+        trusted_base=TB_DISP,
+        assumptions=['the recover handler does not panic itself'],
+        explanation='Theorems Props.C10_no_escape / C10_once / C10_propagates / C10_ledger; escaped panic value, status, decoded '
+                    'body, recover-handler call count per request and the acquire/release ledger of an instrumenting '
+                    'CompressorProvider compared with the model; histories vs fresh containers.',
+    ),
+    'C19': dict(
+        domains=[dict(name='disp', quick=6000, thorough=150000)],
+        verdicts=['c19_*'],
+        project={'disp': proj_disp_all},
+        prop_files=['props/C19.v'],
+        trivial_classes=('empty',),
+        rule=RULE_DISP, trusted_base=TB_DISP,
+        assumptions=['trace logging is not varied by this domain yet'],
+        explanation='Theorems Props.C19_pool_invariant / C19_events; every request of a history answered identically (status, '
+                    'headers, decoded body, events incl. parameters / attributes / selected route seen by the handler) in the '
+                    'sequential history, alone on a fresh container, and inside a concurrent batch; all three equal the model.',
+    ),
+})
